@@ -61,6 +61,12 @@ def build_impl(race=False):
     with Lock("gobuild"):
         hs = os.path.join(VERIF, "harness")
         shutil.copyfile(os.path.join(REPO, "go.sum"), os.path.join(hs, "go.sum"))
+        # the harness links against the tree under test (VERIF_REPO, default /repo) through a replace directive
+        gm = os.path.join(hs, "go.mod")
+        txt = open(gm).read()
+        new_txt = re.sub(r"replace github.com/mikefarah/yq/v4 => \S+", "replace github.com/mikefarah/yq/v4 => " + REPO, txt)
+        if new_txt != txt:
+            open(gm, "w").write(new_txt)
         for out, pkg, cwd in ((YQH, "./cmd/yqh", hs), (GENTABLES, "./cmd/gentables", hs), (YQ, ".", REPO)):
             rc, o = sh(["go", "build", "-tags", "verif", "-o", out, pkg], cwd=cwd, env=GOENV, timeout=900)
             if rc != 0:
